@@ -14,7 +14,7 @@ import (
 func init() {
 	Registry["C03"] = RuleDef{Module: ".", Run: runC03,
 		Technique:   "path-wise justification of every re-send edge (dominating/edge guards on go/ssa), retry-predicate shape, provenance of the transparent-resend marker",
-		Explanation: "Decides (R03a) that in every client type every CFG path from one send of a command to another send of the same command (goto retry / recover loops, and the cluster work-list appends that feed the next round) carries a justification: the connection-lifetime marker errConnExpired on that send's result, a MOVED/ASK/REDIRECT proof, or the conjunction client-retry-enabled AND command-flag retryable (waived for Cacheable / subscribe payloads) AND the module's retryable-error predicate AND the retry policy's consent; (R03b) that the retryable-error predicates can answer yes only for transport errors with a live context/client or for LOADING (cluster: TRYAGAIN/CLUSTERDOWN) replies; (R03c) that the errConnExpired marker is only attached to commands that were not handed to the writer.",
+		Explanation: "Decides (R03a) that in every client type every CFG path from one send of a command to another send of the same command (goto retry / recover loops, and the cluster work-list appends that feed the next round) carries a justification: the connection-lifetime marker errConnExpired on that send's result, a MOVED/ASK/REDIRECT proof, or the conjunction client-retry-enabled AND command-flag retryable (waived for Cacheable / subscribe payloads) AND the module's retryable-error predicate AND the retry policy's consent; (R03b) that the retryable-error predicates can answer yes only for transport errors with a live context/client or for LOADING (cluster: TRYAGAIN/CLUSTERDOWN) replies; (R03c) that the errConnExpired marker is only attached to commands that were not handed to the writer. (R03h-state) the connection state is written only by its owners - background (0->1), the workers' failure exit (1->2 on a lost connection), the worker's end (4) and Close (0->2/1->2) - and Close, when it moved the pipe to stopping, queues a PING behind the requests in flight and waits for it before closing the socket, so that a lifetime expiry or Close does not fail (and make the clients re-send) requests that were already written.",
 		NotDecided:  "whether the server executed a command whose connection dropped mid-flight (the assumption behind retrying read-only commands); R03c is violated today by two delivery sites and recorded as a known finding."}
 	Registry["C28"] = RuleDef{Module: ".", Run: runC28,
 		Technique:   "path-wise justification of every retry edge, ordering-domain evaluation of the back-off decision, guard rules on the cluster work-list",
@@ -724,6 +724,7 @@ func resendRules(r *Report, rule string, strict bool) {
 }
 
 func runC03(r *Report) {
+	stateTransitionRule(r, "R03d")
 	resendRules(r, "R03a", false)
 	markerRule(r)
 }
